@@ -37,6 +37,23 @@ Proof. exists (VBool true). split; [discriminate|reflexivity]. Qed.
 (** For every depth greater than the nesting height of the value the printed
     DOCUMENT - hence the text at every width and ribbon - is the one printed
     with depth=None (stated for values max_seq_len does not truncate). *)
+(** ... and so does the stream the model of the layout engine really emits
+    under depth = d, for every well-formed value (strings included), width,
+    ribbon, indent (composition with C04_membership and the bridge of
+    Proofs/StrBridge.v): its raw tokens glue to the tokens of [expr_of] at
+    depth d - placeholders exactly where [expr_of] puts them. *)
+From PP Require Import Sem Normalize Layout Render StrBridge EndToEnd.
+Theorem C11_engine_output_tokens :
+  forall (printable sp wd lb : N -> bool) (fuel ff : nat) (v : pyval) (indent width rw d maxlen : Z) (sort : bool)
+         (out : list sdoc),
+    wf_val v ->
+    sdocs_model printable sp wd lb fuel ff v indent width rw (Some d) maxlen sort = Some out ->
+    Glue printable (rtoks (strip out) NNormal) (etoks (expr_of (mkE (Some d) maxlen sort) v false)).
+Proof.
+  intros. destruct (engine_output_tokens_all _ _ _ _ _ _ _ _ _ _ _ _ _ _ H H0) as (raw & <- & G). exact G.
+Qed.
+Print Assumptions C11_engine_output_tokens.
+
 From PP Require Import NormFits DocStable Normalize Layout Render.
 Theorem C11_above_height :
   forall (printable sp wd lb : N -> bool) (fuel ff : nat) (v : pyval) (indent width rw d maxlen : Z) (sort : bool),
